@@ -18,7 +18,7 @@
 
   Readers: `drainE` (`next` in a try/except loop, a `for` loop restarted after each exception),
   `takeE` (`Stream.take(k)` = `list(islice(data, k))`: an exception loses the items of this call),
-  `script` (any sequence of the two).
+  `script` (any sequence of `next`, `take(k)` and `peek(k)` — the latter through `copy()`, an `itertools.tee`).
   Core Lean only.
 -/
 import ALV.Model.C01
@@ -106,12 +106,24 @@ def Iter.takeE (bad : Term → Bool) : Nat → Iter → Except Term (List Term) 
 inductive Read where
   | next                 -- `next(it)` in a try
   | take (k : Nat)       -- `s.take(k)` in a try
+  | peek (k : Nat)       -- `s.peek(k)` in a try
   deriving Repr, Inhabited
 
 inductive ReadOut where
   | one (o : Out)
   | took (r : Except Term (List Term))
   deriving Repr, Inhabited
+
+/-- `Stream.peek(k)` = `self.copy().take(k)`: `copy` puts an `itertools.tee` pair over the data and reads the
+    copy.  The items the copy reads are KEPT for the Stream (`acc`, the tee buffer, then the data where the
+    reading left it); an exception is passed on to the caller and NOT kept: it is gone from the Stream. -/
+def Iter.peekE (bad : Term → Bool) : Nat → List Term → Iter → Except Term (List Term) × Iter
+  | 0, acc, it => (.ok acc, .chain (.list 0 acc) it)
+  | k + 1, acc, it =>
+    match it.stepE bad with
+    | (.stop, it') => (.ok acc, .chain (.list 0 acc) it')
+    | (.raised t, it') => (.error t, .chain (.list 0 acc) it')
+    | (.item x, it') => Iter.peekE bad k (acc ++ [x]) it'
 
 /-- a caller's history of reads on the same Stream -/
 def Iter.script (bad : Term → Bool) : List Read → Iter → List ReadOut × Iter
@@ -122,6 +134,10 @@ def Iter.script (bad : Term → Bool) : List Read → Iter → List ReadOut × I
     (.one s.1 :: r.1, r.2)
   | .take k :: rs, it =>
     let s := it.takeE bad k
+    let r := Iter.script bad rs s.2
+    (.took s.1 :: r.1, r.2)
+  | .peek k :: rs, it =>
+    let s := it.peekE bad k []
     let r := Iter.script bad rs s.2
     (.took s.1 :: r.1, r.2)
 
